@@ -1,0 +1,6 @@
+//go:build !verif
+
+package route
+
+// verifAfterLoad is a no-op unless built with the verif tag (verification harness).
+func verifAfterLoad(where string) {}
